@@ -926,6 +926,92 @@ func genNested(c *hx.Ctx) string {
 	return b.line()
 }
 
+// SAME-INSTANT BURSTS: 3..9 calls (Get2 / Load / Future.Get2 / Set) issued at ONE virtual instant on keys that are
+// loading, fresh, stale, rotted or missing at that instant - sometimes the instant at which a loader returns or a sweep
+// tick fires. The goroutines start in an order chosen by the runtime and interleave freely; every legal outcome
+// must be accepted.
+func genInstantBurst(c *hx.Ctx) string {
+	r := c.Rng
+	b := pickCfg(r)
+	k := keyPool[r.Intn(len(keyPool))]
+	k2 := keyPool[r.Intn(len(keyPool))]
+	val := 1
+	var loads []int
+	// the state of k at the burst instant T
+	T := b.En + int64(r.Intn(int(3*b.En)))
+	if r.Intn(5) == 0 {
+		T = 4 * b.En // at the sweep tick
+	}
+	switch r.Intn(6) {
+	case 0: // loading (long loader, possibly two Loads sharing it)
+		l := b.add(0, "load %%c k=%s loader=dur:%d,val:%d", k, T+b.En+int64(r.Intn(int(b.En))), val)
+		val++
+		loads = append(loads, l)
+		if r.Intn(2) == 0 {
+			l2 := b.add(1000, "load %%c k=%s loader=dur:%d,val:%d", k, b.En, val)
+			val++
+			loads = append(loads, l2)
+			b.fget(1000, l2)
+		}
+	case 1: // the loader returns exactly at T
+		l := b.add(0, "load %%c k=%s loader=dur:%d,val:%d", k, T, val)
+		val++
+		loads = append(loads, l)
+	case 2: // fresh
+		l := b.add(T-b.En/2, "load %%c k=%s loader=dur:0,val:%d", k, val)
+		val++
+		loads = append(loads, l)
+	case 3: // stale
+		b.add(T-b.En-b.En/3, "set %%c k=%s val:%d", k, val)
+		val++
+	case 4: // stale with the refresh already running
+		b.add(T-b.En-b.En/2, "set %%c k=%s val:%d", k, val)
+		val++
+		l := b.add(T-1000, "load %%c k=%s loader=dur:%d,val:%d", k, []int64{1000, b.En, 2 * b.En}[r.Intn(3)], val)
+		val++
+		loads = append(loads, l)
+	default: // missing
+	}
+	n := 3 + r.Intn(7)
+	for i := 0; i < n; i++ {
+		kk := k
+		if r.Intn(6) == 0 {
+			kk = k2
+		}
+		switch r.Intn(10) {
+		case 0, 1, 2, 3, 4:
+			b.add(T, "get2 %%c k=%s", kk)
+		case 5, 6:
+			l := b.add(T, "load %%c k=%s loader=dur:%d,val:%d", kk, []int64{0, 1000, b.En}[r.Intn(3)], val)
+			val++
+			loads = append(loads, l)
+			if r.Intn(2) == 0 {
+				b.fget(T, l)
+			}
+		case 7:
+			b.add(T, "set %%c k=%s val:%d", kk, val)
+			val++
+		default:
+			if len(loads) > 0 {
+				b.fget(T, loads[r.Intn(len(loads))])
+			} else {
+				b.add(T, "get2 %%c k=%s", kk)
+			}
+		}
+	}
+	// one ns later, and much later
+	b.add(T+1, "get2 %%c k=%s", k)
+	if r.Intn(2) == 0 {
+		l := b.add(T+1, "load %%c k=%s loader=dur:1000,val:%d", k, val)
+		val++
+		loads = append(loads, l)
+	}
+	for _, l := range loads {
+		b.fget(T+4*b.En+int64(r.Intn(1000)), l)
+	}
+	return b.line()
+}
+
 func genPure(c *hx.Ctx, n int) {
 	r := c.Rng
 	for i := 0; i < n; i++ {
@@ -1012,6 +1098,7 @@ func gen(mode string) func(c *hx.Ctx) {
 				{w(60, 1000), func() string { return genErrorStreak(c) }, "errorstreak"},
 				{w(600, 10000), func() string { return genCollide(c) }, "collide"},
 				{w(60, 1000), func() string { return genNested(c) }, "nested"},
+				{w(800, 12000), func() string { return genInstantBurst(c) }, "instantburst"},
 			}
 		case "C05":
 			genBoundary(c, emit)
@@ -1028,6 +1115,7 @@ func gen(mode string) func(c *hx.Ctx) {
 				{w(300, 6000), func() string { return genErrorStreak(c) }, "errorstreak"},
 				{w(150, 3000), func() string { return genCollide(c) }, "collide"},
 				{w(40, 1000), func() string { return genNested(c) }, "nested"},
+				{w(500, 8000), func() string { return genInstantBurst(c) }, "instantburst"},
 			}
 		default: // C06
 			phases = []phase{
@@ -1044,6 +1132,7 @@ func gen(mode string) func(c *hx.Ctx) {
 				{w(40, 1000), func() string { return genErrorStreak(c) }, "errorstreak"},
 				{w(100, 2000), func() string { return genCollide(c) }, "collide"},
 				{w(400, 8000), func() string { return genNested(c) }, "nested"},
+				{w(300, 5000), func() string { return genInstantBurst(c) }, "instantburst"},
 			}
 		}
 		for _, ph := range phases {
